@@ -8,12 +8,20 @@ type chunkReader struct {
 	data []byte
 	pos  int
 	next func(pos, remaining int) int // bytes to deliver at this call (>=1)
+	// corners of the io.Reader contract
+	eofWithData bool // the final bytes come together with io.EOF
+	idle, idled bool // every delivery is preceded by one (0, nil) answer
 }
 
 func (c *chunkReader) Read(p []byte) (int, error) {
 	if c.pos >= len(c.data) {
 		return 0, io.EOF
 	}
+	if c.idle && !c.idled && len(p) > 0 {
+		c.idled = true
+		return 0, nil // a Read may return no bytes and no error; the caller has to ask again
+	}
+	c.idled = false
 	n := c.next(c.pos, len(c.data)-c.pos)
 	if n > len(p) {
 		n = len(p)
@@ -23,14 +31,24 @@ func (c *chunkReader) Read(p []byte) (int, error) {
 	}
 	copy(p, c.data[c.pos:c.pos+n])
 	c.pos += n
+	if c.eofWithData && c.pos >= len(c.data) {
+		return n, io.EOF // the last bytes and the end of the stream in one answer (io.Reader allows it)
+	}
 	return n, nil
 }
 
 // Delivery returns a reader for data under delivery mode m:
-// 0 = everything the caller asks for; 1 = one byte per Read; 2 = 7-byte chunks; m >= 3: first Read stops at offset m-3, then the rest.
+// 0 = everything the caller asks for; 1 = one byte per Read; 2 = 7-byte chunks; m >= 3: first Read stops at offset m-3, then the rest;
+// -1 / -2: the final bytes arrive together with io.EOF (whole / 7-byte chunks); -3: every chunk is preceded by a (0, nil) answer.
 func Delivery(data string, m int) io.Reader {
 	b := []byte(data)
 	switch {
+	case m == -1: // everything at once, the end of the stream in the same answer
+		return &chunkReader{data: b, next: func(_, rem int) int { return rem }, eofWithData: true}
+	case m == -2: // 7-byte chunks, the last one together with io.EOF
+		return &chunkReader{data: b, next: func(_, _ int) int { return 7 }, eofWithData: true}
+	case m == -3: // 7-byte chunks, each preceded by an answer without bytes and without error
+		return &chunkReader{data: b, next: func(_, _ int) int { return 7 }, idle: true}
 	case m == 0:
 		return &chunkReader{data: b, next: func(_, rem int) int { return rem }}
 	case m == 1:
@@ -50,9 +68,9 @@ func Delivery(data string, m int) io.Reader {
 // DeliveryModes returns the number of delivery modes for a text of n bytes (0,1,2 and a split at every inner offset).
 func DeliveryModes(n int) int {
 	if n <= 1 {
-		return 3
+		return 6
 	}
-	return 3 + n - 1 // splits at offsets 1..n-1
+	return 6 + n - 1 // splits at offsets 1..n-1
 }
 
 // DeliveryForChoice maps choice c in [0, DeliveryModes(n)) to a mode for Delivery.
@@ -60,5 +78,8 @@ func DeliveryForChoice(c int) int {
 	if c < 3 {
 		return c
 	}
-	return 3 + (c - 3) + 1
+	if c < 6 {
+		return 2 - c // -1, -2, -3: the contract corners
+	}
+	return 3 + (c - 6) + 1
 }
